@@ -49,15 +49,21 @@ LEVEL_TEXT = ("Coq proofs about the executable model pag_to_mag_model (three pha
               "edge between a node and its ancestor, and every unshielded collider of the result is a collider of g; "
               "p2m_component_all_sizes: under rounds_extendable the circle component ends without undirected edge, acyclic, "
               "without unshielded collider (via C08 meek_extensions_preserved and the reflection of the extension oracle). "
+              "With C08's chordal orientation lemma (all sizes): chordalb_gives_peo, p2m_first_round_all_sizes (on a chordal circle "
+              "component the first hand-orientation is always extendable), p2m_shape_all_sizes_chordal (hypotheses: pag_hyps, "
+              "chordal circle component, extendability of the rounds AFTER the first), p2m_component_one_round (no further "
+              "hypothesis when the first round orients the whole component). "
               "BOUNDED discharge of rounds_extendable (Meek's lemma on chordal graphs) — meek_chordal_orientation_bounded_5 / "
               "chordal_iff_vfree_extension_bounded_5: all 1024 undirected graphs on <=5 nodes; pag_hyps_hold_on_pags_of_mags_bounded_3. "
               "REFUTED for the assembly as coded before the repair — p2m_structure_code_refuted. "
               "BY CORRESPONDENCE — the implementation's own result on PAGofMAG(n) and on MARKS(n) passes the same oracle "
               "verdicts (witness validity, not identity), argument unchanged; the unbounded membership clause (Zhang 2008 Thm 2) "
               "is stated (p2m_member_full) and not attempted.")
-LEVEL_NOTE = ("MISSING for an unconditional all-sizes shape theorem: (i) chordal circle component => rounds_extendable for all sizes "
-              "(= every undirected edge of a graph closed under R1-R4 is extendable in both directions, Meek 1995 Thm 4; needs "
-              "perfect-elimination-ordering theory of chordal graphs, not formalised; proved here only for all graphs on <=5 nodes), "
+LEVEL_NOTE = ("MISSING for an unconditional all-sizes shape theorem: (i) chordal circle component => rounds_extendable for the rounds "
+              "AFTER the first (the first round is proved for all sizes from the PEO theory of C08/Chordal.v): in a graph closed "
+              "under R1-R4 that still has a v-structure-free extension, every remaining undirected edge is extendable in both "
+              "directions (Meek 1995 Thm 4 with background knowledge; the closed graph is not a chain graph, R3/R4 are needed; proved "
+              "here only by kernel computation for all graphs on <=5 nodes), "
               "(ii) pag_hyps for the PAG of every MAG (Zhang 2008 Lemma 3.3.1; kernel-checked n<=3, harness-checked n<=4 and on the "
               "chordal 5-6 node stream through the booleans pag_hypsb / rounds_ok_b in run_case mode 1); bounded theorems are stated with the boolean oracles (msep_dec; its reflection to the Prop msep is Graph/MSepDec.v, "
               "not imported here); which undirected edge the temporary CPDAG yields first is not modelled (any order is covered by "
